@@ -8,6 +8,7 @@ import (
 	"math/rand"
 	"os"
 	"sync"
+	"time"
 
 	"verifharness/subsdrv"
 )
@@ -50,7 +51,7 @@ func cmdSubs(args []string) int {
 		go func(i int) {
 			defer wg.Done()
 			defer func() { <-sem }()
-			res[i] = subsdrv.Run(scs[i])
+			res[i] = subsdrv.RunWatched(scs[i], 90*time.Second)
 		}(i)
 	}
 	wg.Wait()
